@@ -528,6 +528,23 @@ def manifest_task(item):
                 out_v.append(viol('manifest-set:%s' % name, 'manifest of %s lists %r, a real run creates %r' % (name, sorted(b.manifest)[:12], real_files[:12]), inputs))
             else:
                 oc['manifest-same'] += 1
+            # a second manifest run into the SAME folder in the same process reports the same files (nothing is remembered between runs)
+            n += 1
+            d3 = explore.fresh_dir('c18t')
+            try:
+                for fn, content in impl.TEMPLATES.items():
+                    with open(os.path.join(d3, fn), 'w') as f:
+                        f.write(content)
+                first = impl.run_backend(impl.compile_specs(specs).api, name, opts.get(name, impl.BACKEND_RUNS[name]), d3, manifest=True)
+                second = impl.run_backend(impl.compile_specs(specs).api, name, opts.get(name, impl.BACKEND_RUNS[name]), d3, manifest=True)
+            finally:
+                shutil.rmtree(d3, ignore_errors=True)
+            if first.ok and second.ok and sorted(second.manifest) != sorted(first.manifest):
+                oc['manifest-differs'] += 1
+                out_v.append(viol('manifest-set:%s:second-run' % name, 'a second manifest run of %s into the same folder lists %r, the first listed %r' % (
+                    name, sorted(second.manifest)[:12], sorted(first.manifest)[:12]), dict(inputs, runs='two manifest runs, same folder, same process')))
+            elif first.ok and second.ok:
+                oc['manifest-same:second-run'] += 1
             # the same manifest run into an output folder that does not exist yet (backends that read no template from it)
             args_ = opts.get(name, impl.BACKEND_RUNS[name])
             if not any(a in impl.TEMPLATES for a in args_):
